@@ -75,8 +75,10 @@ def gen_case_factory(tier):
     def gen(rng):
         i = _COUNTER[0]
         _COUNTER[0] += 1
-        force = [{"residual", "condition", "triggered", "crn", "obs"}, {"stepmod", "births", "snoozer", "mortality"},
-                 {"mortality", "obs", "tables", "condition", "births"}][i % 3]
+        # every program: births at EVERY step (somebody is born - and every initializer must run - after each interruption
+        # point) and the PrivateState component (per-simulant state in plain attributes, column-less initializer)
+        force = [{"residual", "condition", "triggered", "crn", "obs"}, {"stepmod", "snoozer", "mortality"},
+                 {"mortality", "obs", "tables", "condition"}][i % 3] | {"births", "births_every", "private"}
         program = probes.gen_program(rng, max_steps=6 if tier == "quick" else 12, force=force)
         case = {"program": program, "hashseed": rng.choice([0, 1, 7, rng.randint(2, 100000)]),
                 "pollute": rng.choice(POLLUTE)}
